@@ -308,9 +308,10 @@ theorem handshake_completes (tO tX : Topic) (o1 o2 : Bool)
 
 /-- a `me` topic tells every contact it may tell (`notifyOnOrSkip`) - nobody else is addressed -/
 theorem users_of_interest_addressees (c : Ctx) (t : Topic) (what : String) (wr go : Bool) (rcpt : TName) (p : PresMsg)
-    (h : (rcpt, p) ∈ (c.presUsersOfInterestCore t what wr go).1.off) :
+    (cmd : String := "")
+    (h : (rcpt, p) ∈ (c.presUsersOfInterestCore t what wr go cmd).1.off) :
     (rcpt, p) ∈ c.off ∨ (∃ o e, (rcpt, o, e) ∈ t.perSubs ∧ (notifyOnOrSkip rcpt what o).isSome = true ∧
-      p = { what := what, src := t.name, wantReply := wr }) := by
+      p = { what := what, cmd := cmd, src := t.name, wantReply := wr }) := by
   unfold Ctx.presUsersOfInterestCore at h
   simp only at h
   generalize t.perSubs = l at h ⊢
@@ -334,8 +335,8 @@ theorem users_of_interest_addressees (c : Ctx) (t : Topic) (what : String) (wr g
 
 /-- … and every such contact is told -/
 theorem users_of_interest_complete (c : Ctx) (t : Topic) (what : String) (wr go : Bool) (n : String) (o e : Bool)
-    (hm : (n, o, e) ∈ t.perSubs) (hn : (notifyOnOrSkip n what o).isSome = true) :
-    (n, { what := what, src := t.name, wantReply := wr }) ∈ (c.presUsersOfInterestCore t what wr go).1.off := by
+    (hm : (n, o, e) ∈ t.perSubs) (hn : (notifyOnOrSkip n what o).isSome = true) (cmd : String := "") :
+    (n, { what := what, cmd := cmd, src := t.name, wantReply := wr }) ∈ (c.presUsersOfInterestCore t what wr go cmd).1.off := by
   unfold Ctx.presUsersOfInterestCore
   simp only
   generalize t.perSubs = l at hm ⊢
@@ -343,7 +344,7 @@ theorem users_of_interest_complete (c : Ctx) (t : Topic) (what : String) (wr go 
       m ∈ (l.foldl (fun c (x : String × Bool × Bool) =>
         match notifyOnOrSkip x.1 what x.2.1 with
         | none => c
-        | some _ => c.offq x.1 { what := what, src := t.name, wantReply := wr }) c).off := by
+        | some _ => c.offq x.1 { what := what, cmd := cmd, src := t.name, wantReply := wr }) c).off := by
     intro l
     induction l with
     | nil => intro c m h; exact h
@@ -365,6 +366,23 @@ theorem users_of_interest_complete (c : Ctx) (t : Topic) (what : String) (wr go 
       | none => rw [hv] at hn; cases hn
       | some v => simp only; unfold Ctx.offq; simp
     · exact ih _ hx
+
+/-- what is on the queue stays on it when a `me` topic tells its contacts something more -/
+theorem users_of_interest_mono (c : Ctx) (t : Topic) (what : String) (wr go : Bool) (cmd : String) (m : TName × PresMsg)
+    (h : m ∈ c.off) : m ∈ (c.presUsersOfInterestCore t what wr go cmd).1.off := by
+  unfold Ctx.presUsersOfInterestCore
+  simp only
+  generalize t.perSubs = l
+  induction l generalizing c with
+  | nil => exact h
+  | cons x xs ih =>
+    rw [List.foldl_cons]
+    apply ih
+    obtain ⟨n, o, e⟩ := x
+    simp only
+    cases notifyOnOrSkip n what o with
+    | none => exact h
+    | some v => unfold Ctx.offq; simp only [List.mem_append]; exact Or.inl h
 
 /-! ### the premises are met by concrete states -/
 
